@@ -11,6 +11,7 @@ pub mod c18;
 pub fn child_mode(mode: &str, extra: &[String]) -> Option<i32> {
     match mode {
         "decode-batch" => Some(c09::child_decode_batch(extra)),
+        "c19-reader" => Some(crate::sim::c19::reader_main(extra)),
         "probe-rangemap" => {
             probe_rangemap();
             Some(0)
